@@ -128,6 +128,57 @@ def run(chk: Check) -> None:
                        "%s raises %s: every rejection must be TypeNameError(type_name)"
                        % (g.qualname, unparse(r)[:50]), 1)
     chk.floor("R15.2", "raise statements in the parser", n_raise, 2)
+    # the parse tree records the names as written: SubtypeTree keeps its arguments unchanged
+    st = repo.cls_opt("SubtypeTree")
+    st_init = st.methods.get("__init__") if st is not None else None
+    if st_init is not None:
+        chk.saw(st_init)
+        ps_ = st_init.param_names()[1:]
+        for a_ in walk_no_nested(st_init.node):
+            if isinstance(a_, (ast.Assign, ast.AnnAssign)) and a_.value is not None:
+                tg_ = a_.targets[0] if isinstance(a_, ast.Assign) else a_.target
+                p_ = attr_path(tg_)
+                if p_ and len(p_) == 2 and p_[0] == st_init.self_name:
+                    as_given = isinstance(a_.value, ast.Name) and a_.value.id in ps_
+                    chk.ob("R15.3", "SubtypeTree.__init__:%s-as-given" % p_[1], as_given, st_init.loc(a_),
+                           "SubtypeTree stores %s as %s, not as the argument it was given: the tree no longer "
+                           "records the type name as written (printing it does not give the name back, "
+                           "distinct names collapse to one tree)" % (p_[1], unparse(a_.value)[:50]), 1)
+    # an empty token list is never a type: the recursive parser rejects it (this is what rejects
+    # "", "a<>", a trailing comma and a dangling '<')
+    for g in inner.values():
+        ps_ = g.param_names()
+        if not ps_:
+            continue
+        tk = ps_[0]
+        flow = CFG(g.node)
+        empties: Set[int] = set()
+        for tn, inf in flow.info.items():
+            if inf.kind != "test":
+                continue
+            t_ = inf.ast
+            for b in flow.g.successors(tn):
+                bi_ = flow.info[b]
+                if bi_.kind != "branch":
+                    continue
+                if isinstance(t_, ast.Name) and t_.id == tk and bi_.value is False:
+                    empties.add(b)
+                if isinstance(t_, ast.Compare) and len(t_.ops) == 1 and isinstance(t_.left, ast.Call) and \
+                        attr_path(t_.left.func) == ("len",) and attr_path(t_.left.args[0]) == (tk,) and \
+                        isinstance(t_.comparators[0], ast.Constant) and t_.comparators[0].value == 0:
+                    op = t_.ops[0]
+                    empty_when = True if isinstance(op, ast.Eq) else False if isinstance(op, (ast.NotEq, ast.Gt)) else None
+                    if empty_when is not None and bi_.value == empty_when:
+                        empties.add(b)
+        # only the first such test (the one not preceded by a rebinding of the list) is about the input
+        firsts = {b for b in empties if flow.dominates(b, b) and not any(
+            isinstance(flow.info[x].ast, ast.Assign) and any(
+                isinstance(y, ast.Name) and y.id == tk and isinstance(y.ctx, ast.Store) for y in ast.walk(flow.info[x].ast))
+            for x in flow.info if flow.info[x].ast is not None and flow.dominates(x, b) and x != b)}
+        ok_e = bool(firsts) and all(flow.exit not in flow.reachable(b) for b in firsts)
+        chk.ob("R15.2", "%s:empty-input-rejected" % g.qualname, ok_e, g.loc(),
+               "%s must raise TypeNameError when it is asked to parse no tokens (an empty parameter "
+               "list 'a<>', a trailing comma, the empty string): a path returns normally instead" % g.qualname, 2)
     # acceptance depends on the token sequence alone: every test in the parser is about how many
     # tokens there are or whether a token is one of the three delimiters — never about *which*
     # name a token is, and never about anything outside the function
